@@ -24,7 +24,10 @@ REQUIRED_COUNTERS = {"tasks_compared": {"quick": 2000, "thorough": 40000},
                      "nurseries_inside_acm": {"quick": 150, "thorough": 3000},
                      "stub_children_checked": {"quick": 500, "thorough": 10000},
                      "pingpong_chains": {"quick": 8, "thorough": 24},
-                     "two_run_cases": {"quick": 2, "thorough": 4}}
+                     "two_run_cases": {"quick": 2, "thorough": 4},
+                     "same_thread_name_cases": {"quick": 2, "thorough": 4},
+                     "pingpong_falsy_callable": {"quick": 4, "thorough": 12},
+                     "pingpong_abandon_on_cancel": {"quick": 4, "thorough": 12}}
 SHARD_TIMEOUT = {"quick": 400, "thorough": 5400}
 
 
@@ -35,7 +38,7 @@ def plan(tier, seed):
                        "depth": 3 if tier == "quick" else 4, "fan": 2 if tier == "quick" else 3,
                        "budget_s": 45 if tier == "quick" else 1500})
     shards.append({"interp": "3.12", "leg": "pingpong", "seed": seed, "max_depth": 4 if tier == "quick" else 7,
-                   "reps": 2 if tier == "quick" else 4})
+                   "reps": 3 if tier == "quick" else 6})
     return shards
 
 
@@ -290,7 +293,22 @@ def worker(spec):
         calllog.append(("async_lvl", k))
         if k >= DEPTH[0]:
             return await bottom_async()
+        if VARIANT[0] == "falsy_callable":
+            # the sync function is a callable object that happens to be falsy (an empty container with __call__)
+            return await trio.to_thread.run_sync(FalsyCallable(), k + 1)
+        if VARIANT[0] == "abandon_on_cancel":
+            # Trio then serves the thread's from_thread.run() in a system task instead of this task
+            return await trio.to_thread.run_sync(sync_lvl, k + 1, abandon_on_cancel=True)
         return await trio.to_thread.run_sync(sync_lvl, k + 1)
+
+    class FalsyCallable(object):
+        def __len__(self):
+            return 0
+
+        def __call__(self, k):
+            return sync_lvl(k)
+
+    VARIANT = ["function"]
 
     def bottom_sync():
         calllog.append(("bottom_sync", None))
@@ -325,8 +343,10 @@ def worker(spec):
     user = ("runner", "sync_lvl", "async_lvl", "bottom_sync", "bottom_async")
     for rep in range(spec["reps"]):
         for d in range(0, spec["max_depth"] + 1):
+            VARIANT[0] = ("function", "falsy_callable", "abandon_on_cancel")[rep % 3]
             res.evaluations += 1
             res.count("pingpong_chains")
+            res.count("pingpong_" + VARIANT[0])
             try:
                 trio.run(main, d)
             except BaseException as e:  # noqa
@@ -345,7 +365,64 @@ def worker(spec):
                 problems.append("warning %r" % (w[0],))
             vis = [f.funcname for f in s.frames if not f.hide]
             if problems:
-                res.violation(kind="trio thread ping-pong", depth=d, problems=problems, visible=vis, interp=interp)
+                res.violation(kind="trio thread ping-pong", depth=d, variant=VARIANT[0], problems=problems, visible=vis, interp=interp)
+    # ---- sibling tasks whose worker threads were given the same thread_name (one string object)
+    sib_ev = threading.Event()
+    sib_arrived = []
+
+    def sib_blocker(tag):
+        sib_arrived.append(tag)
+        sib_ev.wait(60)
+
+    async def sib_hop(tag):
+        await trio.to_thread.run_sync(sib_blocker, tag, thread_name="worker-db")
+
+    async def sib_main(n_sib, out):
+        del sib_arrived[:]
+        sib_ev.clear()
+        async with trio.open_nursery() as nur:
+            for t in range(n_sib):
+                nur.start_soon(sib_hop, t, name="sib%d" % t)
+            with trio.fail_after(30):
+                while len(sib_arrived) < n_sib:
+                    await trio.sleep(0.01)
+            await trio.sleep(0.05)
+            with warnings.catch_warnings(record=True) as w:
+                warnings.simplefilter("always")
+                for t in nur.child_tasks:
+                    out[t.name] = stackscope.extract(t)
+            out["warnings"] = [str(x.message)[:100] for x in w]
+            sib_ev.set()
+
+    for rep in range(spec["reps"]):
+        n_sib = 2 + rep % 2
+        out = {}
+        try:
+            trio.run(sib_main, n_sib, out)
+        except BaseException as e:  # noqa
+            sib_ev.set()
+            res.inconclusive.append("sibling scenario raised %r" % (e,))
+            continue
+        res.evaluations += 1
+        res.count("same_thread_name_cases")
+        res.nontrivial("same-thread-name", n_sib, rep)
+        problems = []
+        for t in range(n_sib):
+            s = out.get("sib%d" % t)
+            if s is None:
+                problems.append("no stack for sibling %d" % t)
+                continue
+            got = [(f.funcname, f.pyframe.f_locals.get("tag")) for f in s.frames if f.funcname in ("sib_hop", "sib_blocker")]
+            if got != [("sib_hop", t), ("sib_blocker", t)]:
+                problems.append("sibling %d shows %r" % (t, got))
+            if s.error is not None:
+                problems.append("error %r" % (s.error,))
+        if out.get("warnings"):
+            problems.append("warning %r" % (out["warnings"][0],))
+        if problems:
+            res.violation(kind="trio: sibling to_thread calls with one thread_name", siblings=n_sib, problems=problems[:4],
+                          interp=interp)
+
     # ---- two Trio runs alive at once: a to_thread worker of run A calls into run B with an explicit
     # token; the stack of the task in A must continue into the task of run B that serves the call
     import threading as _threading
